@@ -9,19 +9,23 @@ EXTENDS P11Core
 CONSTANTS Acts,      \* subset of action family names
           MaxH,      \* bound on the number of handles issued
           MaxO,      \* bound on the number of objects ever created
-          LoginPins  \* PIN symbols tried by C_Login / C_SetPIN / C_InitPIN / C_InitToken
+          LoginPins, \* PIN symbols tried by C_Login / C_SetPIN / C_InitPIN / C_InitToken
+          Templates  \* search templates (sets of atoms) tried by C_FindObjectsInit
 
 NextH   == Cardinality(issued) + 1
 NextO   == Cardinality(DOMAIN obj \cup dead) + 1
 HArgs   == issued \cup {0}
 SArgs   == (DOMAIN sess) \cup (IF "stale" \in Acts THEN issued \cup {0} ELSE {})
-OArgs   == (DOMAIN oh)   \cup (IF "stale" \in Acts THEN issued \cup {0} ELSE {})
+\* object-handle arguments: live handles of the session's own token (cross-token use of handles is outside the
+\* listed properties), plus - with "stale" - every dead or wrong-kind handle ever issued and 0 (never issued)
+OArgsOf(h) == {g \in DOMAIN oh : h \in DOMAIN sess => obj[oh[g]].t = sess[h].t}
+              \cup (IF "stale" \in Acts THEN (issued \ DOMAIN oh) \cup {0} ELSE {})
 CanH    == NextH <= MaxH
 CanO    == NextO <= MaxO
 
 \* deterministic assignment of fresh handles to a set of objects: ascending object id
 UArgs == IF "utypes" \in Acts THEN Users ELSE {"user", "so"}
-TArgs == Labels \cup {"any"}
+TArgs == Templates
 Rank(S, o) == Cardinality({p \in S : p < o})
 FreshFor(S) == [o \in S |-> NextH + Rank(S, o)]
 Need(h, tmpl) == IF h \in DOMAIN sess THEN {o \in FindSet(h, tmpl) : HandleOf(o) = {}} ELSE {}
@@ -30,17 +34,26 @@ MOpen(t, rw)                 == "sess" \in Acts /\ CanH /\ OpenSession(t, rw, Ne
 MClose(h)                    == h \in SArgs /\ "sess" \in Acts /\ CloseSession(h)
 MCloseAll(t)                 == "sess" \in Acts /\ CloseAllSessions(t)
 MInfo(h)                     == h \in SArgs /\ "info" \in Acts /\ GetSessionInfo(h)
-MLogin(h, u, pin)            == h \in SArgs /\ u \in UArgs /\ "sess" \in Acts /\ Login(h, u, pin)
+\* "rightpin": only the correct PIN is tried (graphs whose subject is not authentication)
+RightPin(h, u, pin)          == (h \in DOMAIN sess /\ u \in {"user", "so"})
+                                   => pin = (IF u = "so" THEN tok[sess[h].t].so ELSE tok[sess[h].t].user)
+MLogin(h, u, pin)            == h \in SArgs /\ u \in UArgs /\ "sess" \in Acts
+                                /\ ("rightpin" \in Acts => RightPin(h, u, pin)) /\ Login(h, u, pin)
 MLogout(h)                   == h \in SArgs /\ "sess" \in Acts /\ Logout(h)
 MInitToken(t, pin)           == "pin" \in Acts /\ InitToken(t, pin)
 MInitPIN(h, pin)             == h \in SArgs /\ "pin" \in Acts /\ InitPIN(h, pin)
 MSetPIN(h, old, new)         == h \in SArgs /\ "pin" \in Acts /\ SetPIN(h, old, new)
 MCreate(h, tokobj, pr, lab)  == h \in SArgs /\ "obj" \in Acts /\ CanH /\ CanO /\ CreateObject(h, NextO, tokobj, pr, lab, NextH)
-MCopy(h, g, tokobj, pr)      == h \in SArgs /\ g \in OArgs /\ "copy" \in Acts /\ CanH /\ CanO /\ CopyObject(h, g, NextO, tokobj, pr, NextH)
-MDestroy(h, g)               == h \in SArgs /\ g \in OArgs /\ "obj" \in Acts /\ DestroyObject(h, g)
-MGetAttr(h, g)               == h \in SArgs /\ g \in OArgs /\ "attr" \in Acts /\ GetAttr(h, g)
-MSetAttr(h, g, lab)          == h \in SArgs /\ g \in OArgs /\ "attr" \in Acts /\ SetAttr(h, g, lab)
-MSize(h, g)                  == h \in SArgs /\ g \in OArgs /\ "attr" \in Acts /\ GetObjectSize(h, g)
+MCopy(h, g, tokobj, pr)      == h \in SArgs /\ g \in OArgsOf(h) /\ "copy" \in Acts /\ CanH /\ CanO /\ CopyObject(h, g, NextO, tokobj, pr, NextH)
+MDestroy(h, g)               == h \in SArgs /\ g \in OArgsOf(h) /\ "obj" \in Acts /\ DestroyObject(h, g)
+MGetAttr(h, g)               == h \in SArgs /\ g \in OArgsOf(h) /\ "attr" \in Acts /\ GetAttr(h, g)
+MSetAttr(h, g, lab)          == h \in SArgs /\ g \in OArgsOf(h) /\ "attr" \in Acts /\ SetAttr(h, g, lab)
+MSize(h, g)                  == h \in SArgs /\ g \in OArgsOf(h) /\ "attr" \in Acts /\ GetObjectSize(h, g)
+MUse(h, g, f)                == h \in SArgs /\ g \in OArgsOf(h) /\ "use" \in Acts /\ UseObject(h, g, f, TRUE)
+MMake(h, how, tokobj, pr, lab) == h \in SArgs /\ "make" \in Acts /\ CanH /\ CanO
+                                /\ MakeKey(h, how, NextO, tokobj, pr, lab, NextH, TRUE)
+MMakePair(h, tokobj, pr, lab) == h \in SArgs /\ "make" \in Acts /\ NextH + 1 <= MaxH /\ NextO + 1 <= MaxO
+                                /\ MakePair(h, NextO, NextO + 1, tokobj, pr, lab, NextH, NextH + 1, TRUE)
 MFindAll(h, tmpl)            == h \in SArgs /\ "find" \in Acts /\ NextH + Cardinality(Need(h, tmpl)) <= MaxH + 1
                                 /\ FindAll(h, tmpl, FreshFor(Need(h, tmpl)))
 MFindInit(h, tmpl)           == h \in SArgs /\ "findop" \in Acts /\ NextH + Cardinality(Need(h, tmpl)) <= MaxH + 1
@@ -73,6 +86,9 @@ Next ==
     \/ \E h \in HS, g \in HS : MGetAttr(h, g)
     \/ \E h \in HS, g \in HS : MSize(h, g)
     \/ \E h \in HS, g \in HS, lab \in Labels : MSetAttr(h, g, lab)
+    \/ \E h \in HS, g \in HS, f \in UseKinds : MUse(h, g, f)
+    \/ \E h \in HS, how \in MakeKinds, tokobj \in BOOLEAN, pr \in BOOLEAN, lab \in Labels : MMake(h, how, tokobj, pr, lab)
+    \/ \E h \in HS, tokobj \in BOOLEAN, pr \in BOOLEAN, lab \in Labels : MMakePair(h, tokobj, pr, lab)
     \/ \E h \in HS, tmpl \in TArgs : MFindAll(h, tmpl)
     \/ \E h \in HS, tmpl \in TArgs : MFindInit(h, tmpl)
     \/ \E h \in HS, n \in {0, 1, 2} : MFind(h, n)
